@@ -95,9 +95,14 @@ func linkSpecs(dir string) error {
 }
 
 func tlcCmd(dir string, xmx string, args ...string) *exec.Cmd {
-	a := []string{"-Dfile.encoding=UTF-8", "-Xss64m", "-Xmx" + xmx, "-XX:+UseSerialGC",
+	a := []string{"-Dfile.encoding=UTF-8", "-Xss64m", "-Xmx" + xmx, "-XX:+UseSerialGC"}
+	if xmx == "3g" {
+		// trace judging: short runs, the optimising JIT costs more than it gains
+		a = append(a, "-XX:TieredStopAtLevel=1")
+	}
+	a = append(a,
 		"-cp", "/opt/veriftools/tla/tla2tools.jar:/opt/veriftools/tla/CommunityModules-deps.jar", "tlc2.TLC",
-		"-noGenerateSpecTE", "-metadir", filepath.Join(dir, "tlcmeta")}
+		"-noGenerateSpecTE", "-metadir", filepath.Join(dir, "tlcmeta"))
 	a = append(a, args...)
 	cmd := exec.Command("java", a...)
 	cmd.Dir = dir
